@@ -658,7 +658,17 @@ def _r9(chk: Check) -> None:
     NUM = number_token(lm)
     rm = lm.rules[NUM]
     where = '%s:%d' % (lm.spec.module.rel, rm.rule.line)
-    odd = [ch for ch in 'eEnNiIfFaA_' if LM.can_contain(rm.parsed, ch)]
+    from .c08 import numeral_separators
+    import re as _re
+    seps = numeral_separators(F, rm)
+    odd = [ch for ch in 'eEnNiIfFaA_' if LM.can_contain(rm.parsed, ch) and ch not in seps]
+    if seps and not odd:
+        # digit separators the rule removes before the conversion: what is left of every sample must still be a numeral
+        for w in sorted(LM.samples(rm.parsed, unroll=2, cap=300, alphabet='05.' + ''.join(sorted(seps))) or ['?'], key=lambda x: (len(x), x)):
+            left = ''.join(c for c in w if c not in seps)
+            if not _re.fullmatch(r'[0-9]+(\.[0-9]+)?|\.[0-9]+|[0-9]+\.', left):
+                odd.append('%s (of %r)' % (left or 'the empty text', w))
+                break
     chk.require(not odd, R9, 't_%s accepts only digits and a point' % NUM, where,
                 'the numeral regex can match %s: text like 1e1000000000000000000 (or nan / inf / 1_0) is accepted by the lexer but '
                 'Decimal() raises InvalidOperation or builds a non-number: the error escapes from token() as a non-ParserError'
